@@ -194,7 +194,7 @@ PROPS = {
     },
     "C03": {
         "units": ["store", "log"],
-        "label_prefixes": ["C03.", "C05.tombstone_safe", "C04.append.flushed_before_ack", "C02.iter.", "C20.write.err_recoverable", "C20.put.err_recoverable", "C20.delete.err_recoverable", "C02.put.recoverable", "C02.delete.recoverable",
+        "label_prefixes": ["C03.", "C02.open.log_unchanged", "C05.tombstone_safe", "C04.append.flushed_before_ack", "C02.iter.", "C20.write.err_recoverable", "C20.put.err_recoverable", "C20.delete.err_recoverable", "C02.put.recoverable", "C02.delete.recoverable",
                            "C02.rollover.log_unchanged", "C20.new_active.err_unchanged", "C02.write.log_push", "C02.rebuild.is_spec_recover", "C05.copy.identical_record", "C14.create.fresh"],
         "level": "proof",
         "trusted": ["T1", "T4", "T8", "T11", "T12", "T13", "T13s", "TLOG", "TARC", "RW", "DERIVE"],
@@ -203,7 +203,7 @@ PROPS = {
             "MERGE: Writer::merge carries crash_point_merge after every World call -- the two creations of an output, the flush of each copied record, each hint append, the fsyncs, the creations at a rollover of the output, each unlink of a hint file, each unlink of a data file, the creation of the new active file: a restart from that very state yields the map the store had when the merge began (C03.merge.crash_point), given that the merge began in a state from which start-up rebuilds the key directory and whose hint files list their data files. The loop invariants say what start-up would rebuild at that moment (the key directory as it is now). One lemma per kind of step (lemmas/crashmerge_lemmas.rs): a flushed copy is invisible until its hint record exists (the output is read through its hint file); a hint append binds the key to the copy; fsync and empty files change nothing; unlinking a hint file that lists exactly its data file changes nothing; unlinking a data file no key points into changes nothing PROVIDED no tombstone in it is the only thing that shadows an older value in an unselected file -- this last proviso is the per-file form of the OPEN KNOWN FINDING D9 (lemma_tombstone_safe_step, label C05.tombstone_safe), on which the checkpoints of the removal loop therefore rest",
             "a kill INSIDE a World call leaves a state the World also produces when that call fails: for the write path these states are covered by the error exits (C20.write/put/delete.err_recoverable, C20.new_active.err_unchanged), which this check counts; for merge the error exits are NOT under such a contract -- there the in-call states are a partly written copy (invisible: the output is read through its hint file) or a partly written hint record (the World keeps the record list unchanged and the loader stops at it: C02.iter.*), which is argued, not machine-checked",
             "the directory a kill leaves must also be one the store can keep working from: every creation in the store carries the precondition C14.create.fresh (a hint file is created only when its data file exists and has no hint file yet; a data file only with an id above every id ever used), so no prefix of the World calls leaves a hint file without its data file -- such a stale hint file would be adopted by the next active file of the same id and hide everything acknowledged afterwards (sub-agent seed C03e). These preconditions are counted for C03",
-            "NOT proved: a kill during start-up itself (rebuild_storage only reads; Bitcask::open then creates one empty file) and the error exits of merge. The thorough tier and the witness search additionally ENUMERATE every kill point on the real code for three histories with rollovers, merges and reopens (tools/crashsearch.py; bounded, never counted as proved)",
+            "a kill during start-up: Bitcask::open is verified; every exit of it, Ok or Err -- and a kill after a prefix of its World calls leaves exactly the state of one of its Err exits: nothing changed, or one fresh empty data file created -- satisfies C03.open.kill_during_startup_harmless: the directory log is unchanged, the directory is well-formed and its hint files are still consistent, so the next start-up computes the same key directory (the Err exits through `?` are discharged with a broadcast form of lemma_log_new_file, because no ghost statement can be placed there). NOT proved: the error exits of merge (tried again with this technique: each kind of failing call needs its own broadcast lemma and trigger discipline inside the heaviest proof of the unit; left out). The thorough tier and the witness search additionally ENUMERATE every kill point on the real code for three histories with rollovers, merges and reopens (tools/crashsearch.py; bounded, never counted as proved)",
             "that a torn tail is skipped cleanly by the loader rests on LogIterator::next mapping UnexpectedEof to end-of-file (verified in unit log: C02.iter.*) and on bincode's encoding being self-delimiting (T11)",
         ],
     },
